@@ -2232,7 +2232,7 @@ namespace awkward {
     ContentPtr out = next.get()->reduce_next(reducer,
                                              negaxis,
                                              starts,
-                                             nextshifts,
+                                             (ISOPTION ? nextshifts : shifts),
                                              nextparents,
                                              outlength,
                                              mask,
@@ -2567,7 +2567,7 @@ namespace awkward {
     }
     ContentPtr out = next.get()->argsort_next(negaxis,
                                               starts,
-                                              nextshifts,
+                                              (ISOPTION ? nextshifts : shifts),
                                               nextparents,
                                               outlength,
                                               ascending,
